@@ -6,6 +6,60 @@ PURE_OBS = None  # compare every line
 NOT_APPLICABLE = {}
 
 PROPS = {
+    'C06': {
+        'families': [('corpus:limits', 0, 0), ('ep:limits', 1500, 40000), ('ep:codec', 500, 10000)],
+        'rule': 'frame/fragment size patterns around the configured limits (limit-1, limit, limit+1; limits 0,1,5,10,125,126,300), '
+                'headers announcing up to 2^64-1 bytes with nothing following, every read-buffer size; read-only cases are also '
+                'checked against the one-shot RFC decoder with the same limits',
+        'assumptions': ['real heap use is allocator / BytesMut behaviour: not modelled (partial); the model bounds the sizes the code '
+                        'asks for: no reserve before the announced length passed the max_frame_size check',
+                        'configurations with max_frame_size = None are outside the property (finite limits)'],
+        'trusted_base': ['Spec/Rfc6455.lean (one-shot decoder with limits) as specification'],
+        'level_text': 'Kernel-checked: no frame above max_frame_size is ever returned; an over-limit announced length is a capacity error '
+                      'in the call that completes the header, with no transport read; the reassembly accumulator never exceeds '
+                      'max_message_size and the first excess is a capacity error (text counts the undecoded tail); the specification never '
+                      'delivers an over-limit message. All limits, sizes and announced lengths.',
+        'level_note': 'Partial: memory actually allocated is not modelled. The end-to-end bound on delivered messages follows from the '
+                      'refinement theorem of C05 (C05_segmentation_independent) together with C06_spec_messages_bounded.',
+    },
+    'C11': {
+        'families': [('corpus:defects', 0, 0), ('ep:ping', 2000, 60000), ('ep:backpressure', 800, 20000)],
+        'rule': 'sequences of pings (payload 0..125) interleaved with data, user pongs and closes, read/write/flush call patterns, '
+                'WouldBlock on any write or flush, small write buffers',
+        'assumptions': ['max_write_buffer_size holds the largest single frame (property quantifier)'],
+        'trusted_base': [],
+        'level_text': 'Kernel-checked (per call): a ping read while open puts pong(payload) into the pending slot and is delivered; none once '
+                      'closing; a blocked write/flush inside read sets the retry flag and never fails the read; a successful flush queues the '
+                      'pending reply exactly once after everything queued before, empties the slot, drains the buffer and flushes the transport '
+                      '(also through the put-back-and-retry path). Monitor on implementation traces: pongs are a subsequence of pings, none invented, '
+                      'sent by the next op whose transport writes succeed.',
+        'level_note': 'The history-level statements (never lost across arbitrary histories) rest on the invariant theorem of C03/C10 and on the '
+                      'correspondence; the theorems here are per-call Hoare triples for every state.',
+    },
+    'C12': {
+        'families': [('corpus:defects', 0, 0), ('ep:close', 2000, 60000), ('pure:closecode', 1, 1)],
+        'rule': 'close frames with every class of status code (all 65536 through the conversion functions), reasons empty..123 bytes, '
+                'arriving in every connection state, with and without a pending pong',
+        'assumptions': [],
+        'trusted_base': ['Generated/Coding.lean (closeCodeOfU16, closeCodeIsAllowed) and State.lean (protocolViolationReason) from the translator'],
+        'level_text': 'Kernel-checked for ALL codes (symbolic, via C20_allowed_iff), reasons and states: on an open connection the reported close '
+                      'and the queued reply carry the same (code, reason): the peer\'s own if the code may appear on the wire, else 1002 '
+                      '"Protocol violation"; empty answered with empty; a Close answering ours is reported unchanged and not answered; a second '
+                      'Close is ignored; the pending reply is never displaced; malformed payloads are errors.',
+        'level_note': '"Exactly one Close reaches the wire" is the CloseLast part of the C03 invariant plus C13; here per-call theorems for every state.',
+    },
+    'C14': {
+        'families': [('corpus:defects', 0, 0), ('ep:backpressure', 2000, 60000), ('ep:mixed', 500, 10000)],
+        'rule': '(write_buffer_size, max_write_buffer_size) pairs incl. 0 and adjacent values, message size sequences, transport refusal '
+                'windows, ping floods while blocked',
+        'assumptions': ['max_write_buffer_size holds the largest single frame used (property quantifier)'],
+        'trusted_base': ['Generated/State.lean configValid from the translator'],
+        'level_text': 'Kernel-checked: construction panics iff max <= write_buffer_size and both sizes reach the codec; buffer_frame never grows '
+                      'the buffer beyond the maximum; an over-limit frame is handed back intact with nothing queued or written and is accepted '
+                      'once there is room; at or below write_buffer_size the transport is not touched, above it it is; WriteBufferFull from write '
+                      'returns the message as its frame and changes neither queue, buffer nor wire.',
+        'level_note': 'Codec- and call-level theorems for every state; the history-level bound is the `bound` field of the C03 invariant.',
+    },
     'C08': {
         'families': [('pure:utf8', 500, 20000), ('pure:utf8c', 8, 200), ('ep:utf8', 1500, 40000), ('corpus:utf8', 0, 0)],
         'rule': 'from_utf8 / utf8::decode on all 1- and 2-byte strings, 3-/4-byte strings around every table boundary and structured '
